@@ -20,7 +20,9 @@ from icalendar.prop import vText
 W = ("a", "é", "€", "\U0001F600", " ", "\t", "\r", "\u0301", "\u3099")
 # characters Python's text layer treats specially (BOM stripped by utf-8-sig, str.splitlines() separators, NUL): same
 # widths as members of W, but a "same width class behaves the same" assumption is exactly what a change may break
-X = ("\ufeff", "\u2028", "\x0b", "\x85", "\x00", "\x1c")
+X = ("\ufeff", "\u2028", "\x0b", "\x85", "\x00", "\x1c",
+     # the first and last code point of every UTF-8 width class (a width computed from thresholds is off by one exactly here)
+     "\x7f", "\x80", "\u07ff", "\u0800", "\uffff", "\U00010000", "\U0010ffff")
 LIMIT = 75
 
 
@@ -156,11 +158,11 @@ def run(ctx):
     ctx.rule = ("E-enum over width alphabet W={a,e-acute(2 octets),euro(3),emoji(4),SP,TAB,CR,U+0301,U+3099}: (i) all lines a^p.w.b^s, "
                 f"p in 0..160, w in W^<={j}, s in {TAILS_Q}; (ii) all periodic lines a^p.(w)^r, w in W^1..{m}, p in 0..3, "
                 f">=165 octets; (iii) a^p.w.b^s (w in W^<={jc}) as property value, parameter value and ALTREP+DESCRIPTION "
-                "of an event inside a calendar; (vi) short property names x k repetitions (k <= 40/80) of one character or a two-character unit of every width through the component path; (iv)/(v) the same shapes with words over W + {U+FEFF, U+2028, VT, U+0085, NUL, FS} containing at least one of these. non-trivial = the line was actually folded.")
+                "of an event inside a calendar; (vi) short property names x k repetitions (k <= 40/80) of one character or a two-character unit of every width through the component path; (iv)/(v) the same shapes with words over W + {U+FEFF, U+2028, VT, U+0085, NUL, FS, and the boundary code points U+007F/0080/07FF/0800/FFFF/10000/10FFFF} containing at least one of these. non-trivial = the line was actually folded.")
     ctx.bounds = {"alphabet": [repr(c) for c in W], "prefix_len": "0..160", "w_len_i": j, "w_len_ii": m,
                   "tails": list(TAILS_Q), "limit": LIMIT}
     ctx.assumptions += ["lines contain no LF (the library asserts this; statement quantifies over lines without LF)",
-                        "characters outside W and the six special characters (other scalar values of the same UTF-8 width) fold like their width class"]
+                        "characters outside W and the thirteen special characters (other scalar values of the same UTF-8 width) fold like their width class"]
 
     def gen_i():
         for w in words(j):
